@@ -245,29 +245,32 @@ fn c15_alloc_free_alloc_align8() {
     alloc_free_alloc(size_layout(8), size_layout(8));
 }
 
-/// alloc a, alloc b, free a, alloc c: c may reuse a's memory but never overlaps live b,
-/// and b's bytes survive
+/// alloc a (24 B), alloc b (32 B), free b, alloc c (symbolic size) with alignment 16: c may reuse b's memory (which
+/// starts at an address that is only 8-aligned) but must be aligned for ITS layout, never
+/// overlaps live a, and a's bytes survive
 #[kani::proof]
 #[kani::unwind(3)]
 #[kani::stub(page_size::get, page128)]
 fn c15_alloc_reuse_keeps_live_block() {
     let mut inner = Box::new(CQueueLLAllocatorInner::new());
+    inner.pages.reserve(3);
     let mut h = inner.handle();
     let l0 = Layout::from_size_align(24, 8).unwrap();
-    let l1 = size_layout(8);
-    let l2 = size_layout(8);
+    let l1 = Layout::from_size_align(32, 8).unwrap();
+    let l2 = size_layout(16);
     let b0 = new_blk(h.allocate(l0).unwrap() as usize, l0);
     let b1 = new_blk(h.allocate(l1).unwrap() as usize, l1);
     unsafe {
-        (b1.p as *mut u8).write(0x5A);
-        h.deallocate(NonNull::new(b0.p as *mut u8).unwrap(), l0);
+        (b0.p as *mut u8).write(0x5A);
+        h.deallocate(NonNull::new(b1.p as *mut u8).unwrap(), l1);
     }
     let b2 = new_blk(h.allocate(l2).unwrap() as usize, l2);
     check_lean(&inner, &b2);
-    assert!(disjoint(&b1, &b2), "C15 reused memory never overlaps a live allocation");
-    assert!(unsafe { (b1.p as *const u8).read() } == 0x5A, "C15 a live allocation is not disturbed by free/alloc of others");
-    assert!(inner.allocated_mem == b1.padded + b2.padded, "C15 allocated_mem == sum of live padded sizes");
-    kani::cover!(b2.p == b0.p, "REACH freed block handed out again");
+    assert!(disjoint(&b0, &b2), "C15 reused memory never overlaps a live allocation");
+    assert!(unsafe { (b0.p as *const u8).read() } == 0x5A, "C15 a live allocation is not disturbed by free/alloc of others");
+    assert!(inner.allocated_mem == b0.padded + b2.padded, "C15 allocated_mem == sum of live padded sizes");
+    kani::cover!(b2.p > b1.p && b2.p < b1.p + b1.padded, "COVER the new block starts inside the freed block");
+    kani::cover!(b1.padded == b2.padded && b1.p % 16 == 8, "REACH same size class recycled from an 8-mod-16 address for a 16-aligned request");
     kani::cover!(true, "REACH end of harness");
     std::mem::forget(inner);
 }
